@@ -92,3 +92,79 @@ def target(prop_modules, title="purity"):
         sess.assumptions.append("purity beyond module-level state (numpy/scipy/lmfit internals, RNG) is assumed")
     m0, f0, _ = prop_modules[0]
     return (f"{m0}:{title}", m0, f0[0], run)
+
+
+def target_modules(modules, title, allowed=()):
+    """every module-level function of the given modules writes no module-level state (no result can come from an earlier call)"""
+    def run(sess: Session):
+        n = 0
+        for module in modules:
+            try:
+                tree = core.module_ast(module)
+            except (FileNotFoundError, OSError) as ex:
+                sess.unsupported(f"{module}: {ex}")
+                continue
+            names = [f.name for f in tree.body if isinstance(f, ast.FunctionDef)]
+            n += len(names)
+            check(sess, module, names, allowed)
+        sess.check("cover", [], z3.BoolVal(n >= 1), 0, label=f"functions scanned: {n}")
+        sess.assumptions.append("purity beyond module-level state (numpy/scipy/lmfit internals, RNG) is assumed")
+    return (f"{modules[0]}:{title}", modules[0], "_generate_time_constants" if "utility" in modules[0] else "", run)
+
+
+OBSERVER = r"^(get_|to_|are_|is_|generate_|_get_|contains$|serialize$|__repr__|__str__|__len__|__iter__|__contains__|__eq__|__hash__|_to_string|_impedance$|_sympy$|to_string$)"
+SELF_MUTATORS = {"append", "extend", "insert", "pop", "remove", "clear", "update", "setdefault", "popitem", "sort", "reverse", "add", "discard"}
+
+
+def observer_writes(fn: ast.FunctionDef):
+    """stores through `self` in a method: attribute / item assignment or deletion, and mutating calls on attributes of self"""
+    if not fn.args.args:
+        return []
+    me = fn.args.args[0].arg
+    out = []
+    for x in ast.walk(fn):
+        if isinstance(x, (ast.Attribute, ast.Subscript)) and isinstance(x.ctx, (ast.Store, ast.Del)):
+            r = x
+            while isinstance(r, (ast.Attribute, ast.Subscript)):
+                r = r.value
+            if isinstance(r, ast.Name) and r.id == me:
+                out.append((x.lineno, f"stores into {ast.unparse(x)[:60]}"))
+        if isinstance(x, ast.Call) and isinstance(x.func, ast.Attribute) and x.func.attr in SELF_MUTATORS and not isinstance(x.func.value, ast.Name):
+            r = x.func.value
+            while isinstance(r, (ast.Attribute, ast.Subscript)):
+                r = r.value
+            if isinstance(r, ast.Name) and r.id == me:
+                out.append((x.lineno, f"mutates {ast.unparse(x.func.value)[:60]} via .{x.func.attr}()"))
+    return out
+
+
+def target_observers(modules, title):
+    """observer methods (get_*, to_*, are_*, is_*, generate_*, __repr__/__str__/__len__/__iter__/__contains__, to_string,
+    serialize, _impedance, _sympy) of every class in the given modules store nothing through `self`: what they return is a
+    function of the object's current state, never of an earlier call (no memoised identifiers, subsets or strings that a later
+    mutation leaves stale)"""
+    import re
+    pat = re.compile(OBSERVER)
+
+    def run(sess: Session):
+        n = 0
+        for module in modules:
+            try:
+                tree = core.module_ast(module)
+            except (FileNotFoundError, OSError):
+                continue
+            for cls in [c for c in tree.body if isinstance(c, ast.ClassDef)]:
+                bad = []
+                k = 0
+                for fn in [f for f in cls.body if isinstance(f, ast.FunctionDef) and pat.search(f.name)]:
+                    k += 1
+                    for ln, d in observer_writes(fn):
+                        bad.append(f"{fn.name}: {d} at L{ln}")
+                if k:
+                    n += k
+                    ob = sess.check("frame", [], z3.BoolVal(not bad), 0, label=f"{module}:{cls.name}: its {k} observer methods store nothing through self" if False else f"{module}:{cls.name}: observer methods store nothing through self")
+                    if bad:
+                        ob.detail = "; ".join(bad[:4])
+                        ob.formula = ob.detail
+        sess.check("cover", [], z3.BoolVal(n >= 5), 0, label=f"observer methods scanned: {n}")
+    return (f"{modules[0]}:{title}", modules[0], "", run)
